@@ -200,12 +200,23 @@ let rotate_run_handle (files : t list) (dect : t list) (enct : t list) (layt : t
 let handle (cmd : string) (args : t list) : t option =
   match cmd, args with
   | "save", [c; s; f] -> Some (out_sexp (Sv.save (cfg_of c) (fault_of f) (fs_of s)))
+  | "save-close", [c; s; f; m] ->
+    let cm = (match m with A "none" -> None | A "before" -> Some Sv.Before | A "mid" -> Some Sv.Mid
+                           | x -> failwith ("bad close mode " ^ to_string x)) in
+    Some (out_sexp (Sv.save_close (cfg_of c) (fault_of f) cm (fs_of s)))
   | "save2", [c; s; f; f2] -> Some (out_sexp (Sv.save2 (cfg_of c) (fault_of f) (fault_of f2) (fs_of s)))
   | "setmain", [i; s; f] -> Some (out_sexp (Sc.set_main (setin_of i) (fault_of f) (fs_of s)))
   | "setmain2", [i; s; f; f2] -> Some (out_sexp (Sc.set_main2 (setin_of i) (fault_of f) (fault_of f2) (fs_of s)))
   | "mergemain", [i; s; f] -> Some (out_sexp (Sc.merge_main (mergein_of i) (fault_of f) (fs_of s)))
   | "rotate", [d; next; L folded; L dect; L enct; L layt] -> Some (rotate_handle d next folded dect enct layt)
   | "rotate-run", [L files; L dect; L enct; L layt] -> Some (rotate_run_handle files dect enct layt)
+  | "loaded-doc-b", [L files] ->
+    (* the hypothesis of the document-level theorems, evaluated on every document of the run *)
+    Some (L [A "hyp"; L (List.filter_map (function
+        | L [A "doc"; d; next; _] ->
+          let nd = node_of_sexp d and nx = n_of_int (int_atom next) in
+          Some (L [bs (c19_inv_b nd nx); bs (c19_keys_ok_b nd); bs (c19_loaded_doc_b nd nx)])
+        | _ -> None) files)])
   | "eyaml-paths", [d] ->
     Some (L (List.map (fun p -> L (List.map pseg_sexp p)) (Ey.find_eyaml_paths (node_of_sexp d))))
   | "is-eyaml", [v] -> Some (bs (Ey.is_eyaml_value (pyval_of_sexp v)))
